@@ -252,6 +252,25 @@ def smooth_cubic(rng):
     return [p0] + list(els[k][1:])
 
 
+def closed_loop(rng):
+    """a closed smooth loop: a whole ellipse (any rotation) as a chain of G1 cubics whose last point IS the first point"""
+    n = rng.randint(4, 16)
+    rx, ry, rot = rng.uniform(2, 8), rng.uniform(2, 8), rng.uniform(0, 3)
+    cx, cy = rng.uniform(-3, 3), rng.uniform(-3, 3)
+    cr, sr = math.cos(rot), math.sin(rot)
+    f = lambda t: (cx + cr * rx * math.cos(t) - sr * ry * math.sin(t), cy + sr * rx * math.cos(t) + cr * ry * math.sin(t))
+    df = lambda t: (-cr * rx * math.sin(t) - sr * ry * math.cos(t), -sr * rx * math.sin(t) + cr * ry * math.cos(t))
+    ts = [2 * math.pi * i / n for i in range(n + 1)]
+    els = [('M', f(0.0))]
+    for ta, tb in zip(ts, ts[1:]):
+        h = (tb - ta) / 3
+        p0, p3, d0, d3 = f(ta), f(tb), df(ta), df(tb)
+        if tb == ts[-1]:
+            p3, d3 = f(0.0), df(0.0)
+        els.append(('C', (p0[0] + h * d0[0], p0[1] + h * d0[1]), (p3[0] - h * d3[0], p3[1] - h * d3[1]), p3))
+    return els
+
+
 def simplify_source(rng):
     els = []
     for _ in range(rng.randint(1, 3)):
@@ -285,6 +304,10 @@ def generate(rng, tier):
             d = max(-5.0, min(5.0, d))
             yield offset(c, d, min(acc, abs(d) / 4), (k // 2) % 2, f'offset-opt{(k // 2) % 2}')
         yield simplify(simplify_source(rng), acc, (k // 3) % 2, f'simplify-opt{(k // 3) % 2}')
+        if k % 4 == 0:
+            loop = closed_loop(rng)
+            yield fit(loop, acc, (k // 4) % 2, f'fit-closed-loop-opt{(k // 4) % 2}')
+            yield simplify(loop + ([('Z',)] if rng.random() < 0.5 else []), acc, (k // 8) % 2, f'simplify-closed-loop-opt{(k // 8) % 2}')
         for how in range(3):
             if how == 0:
                 v = [rng.randint(-40, 40) / 4.0 for _ in range(8)]
